@@ -213,9 +213,8 @@ fn resolve(base: u64, h: i32) -> Option<u64> {
 fn firm_block(w: &Shared, salt: u64, height: u64, direct: bool) -> ReconstructedBlock {
     let mut b = chain_block(salt, height).firm;
     let mut w = w.lock().unwrap();
-    let base = w.base_firm.unwrap_or(height);
     // Celestia heights grow with sequencer heights (two sequencer blocks per Celestia block)
-    b.celestia_height = w.cfg.celestia_base + height.saturating_sub(base) / 2;
+    b.celestia_height = w.cfg.celestia_base + height / 2;
     w.note_delivery(true, height, direct);
     b
 }
@@ -638,7 +637,7 @@ fn settle_exit(
         Ok(Some(Ok(state))) => {
             w.trace.abs("Q");
             if shutdown_requested {
-                w.stats.fault("shutdown");
+                w.stats.probe("graceful_exits");
                 w.ev(format!("executor exited gracefully (state present: {})", state.is_some()));
             } else {
                 w.violate_aux(
@@ -675,6 +674,18 @@ async fn reap_if_finished(world: &Shared, inc: &mut Option<Incarnation>) {
         let i = inc.take().expect("checked");
         let res = i.handle.await;
         settle_exit(world, res, i.shutdown_requested);
+    }
+}
+
+/// Delivery ops address "the reader of the current incarnation"; it exists once the executor has
+/// its execution session. Wait (virtual time only) until then, or until the executor is gone.
+async fn wait_for_readers(world: &Shared, inc: &Option<Incarnation>) {
+    let Some(i) = inc else { return };
+    let mut waited = 0u64;
+    while world.lock().unwrap().base_soft.is_none() && !i.handle.is_finished() && waited < 600_000 {
+        let step = if waited < 50 { 1 } else { 25 };
+        tokio::time::sleep(Duration::from_millis(step)).await;
+        waited += step;
     }
 }
 
@@ -745,12 +756,14 @@ async fn drive(sc: &Scenario, world: Shared) {
             Op::Soft {
                 h, ..
             } => {
+                wait_for_readers(&world, &inc).await;
                 let sent = with_soft && inc.as_ref().is_some_and(|x| x.soft_in.send(*h).is_ok());
                 world.lock().unwrap().ev(format!("op soft {h} ({})", if sent { "queued" } else { "no reader" }));
             }
             Op::Firm {
                 h, ..
             } => {
+                wait_for_readers(&world, &inc).await;
                 let sent = with_firm && inc.as_ref().is_some_and(|x| x.firm_in.send(*h).is_ok());
                 world.lock().unwrap().ev(format!("op firm {h} ({})", if sent { "queued" } else { "no reader" }));
             }
@@ -796,6 +809,7 @@ async fn drive(sc: &Scenario, world: Shared) {
             } => {
                 world.lock().unwrap().ev("op shutdown".into());
                 if let Some(x) = inc.take() {
+                    world.lock().unwrap().stats.fault("shutdown_signal");
                     shut_down(&world, x).await;
                     ended_by_shutdown = true;
                 }
